@@ -9,7 +9,7 @@ import ast
 
 from ..core import AnchorError, atoms, call_name, dotted_text, names_in, norm, short, own_nodes, kwarg, FUNC_TYPES
 from ..cfg import cfg_of
-from ..lib import calls_in, stmts_in, gate, must_pass, node_has, params, param_default, attr_stores, key_function
+from ..lib import calls_in, stmts_in, gate, must_pass, node_has, params, param_default, attr_stores, key_function, loop_escapes
 
 ACCESS = 'jedi.inference.compiled.access'
 VALUE = 'jedi.inference.compiled.value'
@@ -700,7 +700,7 @@ def rule_e(repo, chk):
         chk.ob('C13.e', bool(inner) and isinstance(cp.elt, ast.Name) and any(isinstance(g_.target, ast.Name) and g_.target.id == cp.elt.id for g_ in inner), cp,
                'every _get result is accumulated into the returned list')
     for lp in loops:
-        bad = [s for s in ast.walk(lp) if isinstance(s, (ast.Break, ast.Continue, ast.Return))]
+        bad = loop_escapes(lp)
         chk.ob('C13.e', not bad, lp, 'no break/continue/return inside the loop over dir() names')
         cs = [c for c in ast.walk(lp) if isinstance(c, ast.Call) and call_name(c) == '_get']
         ok = bool(cs) and all(kwarg(c, 'check_has_attribute') is None and len(c.args) <= 3 for c in cs)
